@@ -112,9 +112,14 @@ func ExtractIndexNames(path string) ([]string, []string) {
 	indexValues := make([]string, 0)
 	jsonMatches := rOnIndex.FindAllStringSubmatch(path, -1)
 	for _, m := range jsonMatches {
-		idxName := m[1][1:strings.LastIndex(m[1], "=")]
+		eq := strings.LastIndex(m[1], "=")
+		if eq < 0 {
+			// not an index: brackets without '='
+			continue
+		}
+		idxName := m[1][1:eq]
 		indexNames = append(indexNames, idxName)
-		idxValue := m[1][strings.LastIndex(m[1], "=")+1 : len(m[1])-1]
+		idxValue := m[1][eq+1 : len(m[1])-1]
 		indexValues = append(indexValues, idxValue)
 	}
 	return indexNames, indexValues
@@ -136,7 +141,9 @@ func FindPathFromModel(path string, rwPaths ReadWritePathMap, exact bool) (bool,
 	if strings.HasSuffix(path, "]") { //Ends with index
 		indices, _ := ExtractIndexNames(path)
 		// Add on the last index
-		searchPathNoIndices = fmt.Sprintf("%s/%s", searchPathNoIndices, indices[len(indices)-1])
+		if len(indices) > 0 {
+			searchPathNoIndices = fmt.Sprintf("%s/%s", searchPathNoIndices, indices[len(indices)-1])
+		}
 	}
 
 	// First search through the RW paths
